@@ -140,6 +140,21 @@ def runHistory (steps : List String) (impls : List String) : Ans :=
         (match inOf payload with
          | none => go rest impls.tail table cur ({ model := "bad-op", verdict := "skip" } :: acc)
          | some i => go rest impls.tail table cur (judgeConn { i with table := table } impl :: acc))
+      | ["W", payload] =>
+        -- wire bytes through the real listener / conn path.  Effective peer (fields p/pt/pp) = the address of a valid
+        -- PROXY v1 header on a PROXY listener, else the socket peer `sk` (which must then equal p).
+        let m := kvOf payload
+        (match inOf payload, look m "sk", look m "px" with
+         | some i, some sk, some px =>
+           let sockOK := px == "v1" || sk == hexField i.peerIP ++ ":" ++ toString i.peerPort
+           if !sockOK then go rest impls.tail table cur ({ model := "bad-op", verdict := "skip" } :: acc)
+           else if impl == "reject" then
+             go rest impls.tail table cur ({ model := "reject", verdict := "FAIL:wire-rejected", tags := ["wire"] } :: acc)
+           else
+             let a := judgeConn { i with table := table } impl
+             go rest impls.tail table cur ({ a with tags := a.tags ++ ["wire", "px-" ++ px] ++
+               (if (look m "seg").getD "-" != "-" then ["segmented"] else []) } :: acc)
+         | _, _, _ => go rest impls.tail table cur ({ model := "bad-op", verdict := "skip" } :: acc))
       | _ => go rest impls.tail table cur ({ model := "bad-op", verdict := "skip" } :: acc)
   let answers := go steps impls [] "\u0000none" []
   let fails := answers.filter fun a => a.verdict.startsWith "FAIL"
